@@ -41,6 +41,12 @@ def snapshot(model) -> dict:
                 d["shape"] = [str(x) for x in t.shape]
                 if isinstance(t, ir.ExternalTensor):
                     d["ext"] = [t.valid(), str(t.location), t.offset, t.length, str(t.base_dir)]
+                else:
+                    raw = getattr(t, "raw", None)
+                    d["raw_id"] = id(raw)           # the object behind the tensor: still the original data, not an equal copy
+                    fl = getattr(raw, "flags", None)
+                    if fl is not None and hasattr(fl, "writeable"):
+                        d["raw_flags"] = [bool(fl.writeable), bool(fl.c_contiguous), bool(fl.f_contiguous)]
                 try:
                     d["bytes"] = sha(t.tobytes())
                 except Exception as e:  # noqa: BLE001 - an unreadable tensor is itself an observation
@@ -80,9 +86,9 @@ def diff_snapshot(a: dict, b: dict) -> list[str]:
         for da, db in zip(ga["inits"], gb["inits"]):
             for k in sorted(set(da) | set(db)):
                 if da.get(k) != db.get(k):
-                    what = {"tid": "tensor identity", "vid": "value identity", "bytes": "tensor bytes",
+                    what = {"tid": "tensor identity", "vid": "value identity", "bytes": "tensor bytes", "raw_id": "backing object identity",
                             "ext": "external-tensor state", "tcls": "tensor class"}.get(k, k)
-                    shown = "" if k in ("tid", "vid") else f" ({da.get(k)} -> {db.get(k)})"  # no addresses in logs
+                    shown = "" if k in ("tid", "vid", "raw_id") else f" ({da.get(k)} -> {db.get(k)})"  # no addresses in logs
                     out.append(f"graph {ga['name']}: initializer {da['key']!r}: {what} changed{shown}")
     if a["proto"] != b["proto"]:
         out.append("serialized model changed")
@@ -241,6 +247,17 @@ def check_roundtrip(path: str, model, expected: dict, check_ir_load: bool = True
 
 # ------------------------------------------------------------------ one simulated save
 
+def _tree(root: str) -> list:
+    """Everything under the sandbox incl. directories and modification times (for 'before writing anything')."""
+    out = []
+    for d, dirs, fs in os.walk(root):
+        for x in sorted(dirs) + sorted(fs):
+            p = os.path.join(d, x)
+            st = os.lstat(p)
+            out.append((os.path.relpath(p, root), st.st_size if not os.path.isdir(p) else -1, st.st_mtime_ns, st.st_mode))
+    return sorted(out)
+
+
 def _listing(root: str) -> list:
     out = []
     for d, _, fs in os.walk(root):
@@ -311,6 +328,7 @@ def run_save(recipe: dict, plan: dict | None, root: str, retry: bool = True) -> 
         if not cfg.get("ext_preloaded", False):
             release_externals(model)
         listing0 = _listing(sandbox)
+        tree0 = _tree(sandbox)
         has_uninit = bool(recipe.get("uninit"))
 
         fs = SimFS(sandbox, plan, hide_fileno=cfg.get("backend") == "nofileno",
@@ -349,9 +367,11 @@ def run_save(recipe: dict, plan: dict | None, root: str, retry: bool = True) -> 
             else:
                 if not isinstance(exc, ValueError):
                     rec["violations"].append({"class": "no-refusal", "detail": [f"raised {type(exc).__name__}, not ValueError"]})
-                if fs.events or _listing(sandbox) != listing0:
+                if fs.events or _listing(sandbox) != listing0 or _tree(sandbox) != tree0:
+                    changed = sorted(set(x[0] for x in set(_tree(sandbox)) ^ set(tree0)))[:5]
                     rec["violations"].append({"class": "wrote-before-refusing", "detail":
-                                              [f"{len(fs.events)} fs events before the refusal", fs.shape()[:200]]})
+                                              [f"{len(fs.events)} fs events before the refusal", fs.shape()[:200],
+                                               f"files/directories created or touched: {changed}"]})
         else:
             unsavable = any(e.get("kind") == "lazy_fail" for e in recipe["inits"])
             if outcome == "raised" and not faulted and cfg.get("path_form") == "missingdir" and isinstance(exc, OSError):
